@@ -7,16 +7,19 @@ import tempfile
 
 
 def cpp_decode(body):
-    """decode the inside of a C++ narrow string literal (reference decoder: simple escapes, octal, greedy \\x, \\u, \\U)"""
-    out = []
+    """decode the inside of a C++ narrow string literal into text (reference decoder: source characters and \\u / \\U as
+    UTF-8, simple escapes, octal (at most three digits) and greedy \\x as single bytes; the bytes are then read as UTF-8)"""
+    out = bytearray()
     i, n = 0, len(body)
     simple = {'n': '\n', 't': '\t', 'r': '\r', '0': '\0', '\\': '\\', '"': '"', "'": "'", 'a': '\a', 'b': '\b', 'f': '\f', 'v': '\v', '?': '?'}
     while i < n:
         ch = body[i]
         if ch == '"':
             raise ValueError('unescaped quote ends the literal early')
+        if ch == '\n':
+            raise ValueError('raw newline inside a string literal')
         if ch != '\\':
-            out.append(ch)
+            out += ch.encode('utf-8')
             i += 1
             continue
         i += 1
@@ -32,33 +35,37 @@ def cpp_decode(body):
             v = int(body[i + 1:j], 16)
             if v > 0xff:
                 raise ValueError('\\x escape out of range for char')
-            out.append(chr(v))
+            out.append(v)
             i = j
         elif e == 'u' or e == 'U':
             k = 4 if e == 'u' else 8
-            out.append(chr(int(body[i + 1:i + 1 + k], 16)))
+            out += chr(int(body[i + 1:i + 1 + k], 16)).encode('utf-8')
             i += 1 + k
         elif e in '01234567':
             j = i
             while j < n and j < i + 3 and body[j] in '01234567':
                 j += 1
-            out.append(chr(int(body[i:j], 8)))
+            v = int(body[i:j], 8)
+            if v > 0xff:
+                raise ValueError('octal escape out of range for char')
+            out.append(v)
             i = j
         elif e in simple:
-            out.append(simple[e])
+            out += simple[e].encode('utf-8')
             i += 1
         else:
             raise ValueError('unknown escape \\%s' % e)
-    return ''.join(out)
+    return bytes(out).decode('utf-8')
 
 
 def escape(text):
-    """the escaping the generator applies (read from the real source at check time, see escape_expr)"""
-    return repr(text)[1:-1].replace('"', r'\"')
+    """the escaping the generator applies (the real function)"""
+    from gtwrap.pybind_wrapper import PybindWrapper
+    return PybindWrapper._cpp_string_literal(text)
 
 
 CLASSES = ["'", '"', '\\', '\n', '\t', '\x07', 'a', 'f', 'z', ' ', '?', '\xa0', '\xe9', '\u200b', '\u2028', '\U0001f600']
-KNOWN_BAD = set('\x07\xa0\xe9\u200b\u2028\U0001f600')      # characters whose repr() escape is not a C++ escape of the same text
+KNOWN_BAD = set()      # (the repr()-based escaping had a list here; repaired in 664a6f4)
 
 
 def literal_of(generated, method):
@@ -114,8 +121,8 @@ def run(rep, args):
     import ast
     from pyvc.extract import Repo
     src = Repo().functions['PybindWrapper._wrap_method'].source
-    ok = "repr(self.xml_parser.extract_docstring(self.xml_source, cpp_class, cpp_method, method.args.names()))[1:-1].replace('\"', r'\\\"')" in src
-    rep.structural.append(('the docstring literal is built as repr(text)[1:-1].replace(\'"\', r\'\\"\') (the expression the escaping check evaluates)', ok, ''))
+    ok = "self._cpp_string_literal(self.xml_parser.extract_docstring(self.xml_source, cpp_class, cpp_method, method.args.names()))" in src
+    rep.structural.append(('the docstring literal is built by PybindWrapper._cpp_string_literal (the function the escaping check evaluates)', ok, ''))
     if not ok:
         rep.violation('struct:escape-expression', 'the escaping expression in _wrap_method changed; the bounded escaping check no longer mirrors it',
                       dict(obligation='escaping expression'), concrete=False)
@@ -155,6 +162,8 @@ def run(rep, args):
                 rep.violation('doc:literal-malformed', 'literal for text %r is not a valid C++ string literal: %s' % (t, e), dict(kind='escape', text=t, literal=lit))
                 continue
             exp = ''.join(x for x in [t] if x.strip()).strip()
+            if any(ord(c) < 0x20 and c not in '\t\n\r' for c in t):
+                exp = ''        # not an XML 1.0 character: the documentation file is unreadable, which must give an empty docstring
             if dec != exp:
                 rep.violation('doc:literal-decodes-differently', 'literal for %r decodes to %r' % (exp, dec), dict(kind='escape', text=t, literal=lit))
             # apart from the literal the code is unchanged
